@@ -64,7 +64,7 @@ def base_states(rng):
                 b = apihist.Builder(rng, snap=False); sh = b.sh
                 for n in apihist.uniq_names(rng, npts): b.declare_point(n); sh.pts.append(trim(n))
                 for n in apihist.uniq_names(rng, nch, b'c'): b.declare_analog(n); sh.chans.append(trim(n))
-                pr, ar = rng.choice(apihist.RATES)
+                pr, ar = rng.choice(apihist.RATES + [(0.5, 0.5), (0.25, 0.75), (0.999, 1.998), (1e-3, 2e-3), (214748.0, 429496.0)])
                 if rates in ('point', 'both'): b.set_rate(b'POINT', pr)
                 if rates in ('analog', 'both'): b.set_rate(b'ANALOG', ar)
                 ok_data = (rates == 'both') or (rates == 'point' and not nch) or (rates == 'analog' and not npts) or (npts == 0 and nch == 0)
